@@ -5,7 +5,7 @@
 (* A behaviour = preamble (initial channel map, optional start call, run) + up to D free operations of    *)
 (* the family's alphabet:                                                                               *)
 (*   "map"  to | add c | rem c            at most MaxChg map calls       (all 7 initial maps)            *)
-(*   "iv"   to | iv ms                    at most MaxChg interval calls  (ms in IvMs; initial maps: all   *)
+(*   "iv"   to | iv ms                    at most MaxChg interval calls  (ms in IvBfs; initial maps: all  *)
 (*                                        three channels, {38})                                          *)
 (*   "ctl"  to | start | startn k | stop | rxok | rxbad | disc           (manual start)                  *)
 (*   "all"  everything the configuration offers (used with -simulate for long random behaviours)         *)
@@ -44,6 +44,7 @@ GIv0    == CASE CfgId = 3 -> 20000 [] CfgId = 4 -> 10240000 [] CfgId = 10 -> 330
              [] CfgId = 12 -> 152000 [] CfgId = 13 -> 1022000 [] CfgId = 14 -> 10239000 [] OTHER -> 100000
 \* run-time intervals (ms): the limits, one beyond each limit (ignored), multiples and non-multiples of 0.625 ms / 5 ms
 IvMs    == {19, 20, 21, 33, 100, 152, 1022, 10239, 10240, 10241}
+IvBfs   == {19, 20, 33, 100, 10239, 10240, 10241}          \* family "iv" (all sequences): every class of IvMs
 
 GCfg == [auto |-> GAuto, iv |-> GIv0, own |-> OwnA, ownr |-> TRUE, wln |-> 0, types |-> <<0>>, varmap |-> GVarMap, variv |-> GVarIv]
 
@@ -80,7 +81,7 @@ Free(ntx) ==
        /\ \E c \in Chans : \/ c \notin map /\ SetMap(map \cup {c}, ntx) /\ Do(<< <<"add", c>> >>)
                            \/ c \in map /\ map # {c} /\ SetMap(map \ {c}, ntx) /\ Do(<< <<"rem", c>> >>)
     \/ /\ InFam("iv") /\ GVarIv /\ nchg < MaxChg /\ nchg' = nchg + 1
-       /\ \E ms \in IvMs : ms * 1000 # iv /\ SetIv(ms * 1000, ntx) /\ Do(<< <<"iv", ms>> >>)
+       /\ \E ms \in (IF Fam = "iv" THEN IvBfs ELSE IvMs) : ms * 1000 # iv /\ SetIv(ms * 1000, ntx) /\ Do(<< <<"iv", ms>> >>)
     \/ /\ InFam("ctl") /\ UNCHANGED nchg
        /\ \/ StartAdv(-1, ntx) /\ Do(<< <<"start">> >>)
           \/ \E k \in (IF Fam = "all" THEN {1, 2, 4} ELSE {1, 2}) : StartAdv(k, ntx) /\ Do(<< <<"startn", k>> >>)
